@@ -36,7 +36,7 @@ fn value_text() -> BoxedStrategy<String> {
             "#{0.123456789012}", "\"a#{0.123456789}b\"", "a#{1.0000001}b", "#{1 / 3 + 0}", "#{(1/3)}x", "percentage(0.123456789)", "\"#{percentage(0.3333333333)}\"", "1/3", "(1/3)", "10px + 4px", "10px 4px",
             "rgba(1, 2, 3, 0.123456789)", "#{rgba(1, 2, 3, 0.123456789)}", "\"#{#ff0000}\"", "#{red}", "#ff0000", "hsl(10.123456, 20%, 30%)", "url(a.png)", "a, b, c", "[a b]", "(a, b)", "\"q\"", "unquote(\"q\")", "1.23456789e-3",
             "#{1.5px * 1.23456}", "str-insert(\"ab\", \"#{0.66666666}\", 2)", "1 + 2 #{0.5555555555} 3", "inspect(0.123456789)", "\"\"", "a b, c d", "a / b", "list.slash(1, 2)", "calc(1px + 2%)", "calc(0.123456789px + 0.3333333333%)", "min(1px, 2em)",
-            "if(true, 0.987654321, b)", "-webkit-foo(0.123456789)", "foo(#{0.123456789})", "!important", "a !important", "0.5", ".5em", "1e3", "+1", "-a", "not a", "a and b", "1 < 2", "\"a\" + b", "a + \"b\"", "1px*2", "6/2*1",
+            "unquote(\"a\\a  b\")", "unquote(\"a\\a\\a   b  c\")", "1px #{\"solid\\a   \"}red", "unquote(\"x\\a\")", "unquote(\"\\a  y\")", "if(true, 0.987654321, b)", "-webkit-foo(0.123456789)", "foo(#{0.123456789})", "!important", "a !important", "0.5", ".5em", "1e3", "+1", "-a", "not a", "a and b", "1 < 2", "\"a\" + b", "a + \"b\"", "1px*2", "6/2*1",
         ]),
     ]
     .boxed()
